@@ -161,7 +161,7 @@ void disasm_range_sweet16(
 
     opcode = memory->read16(start);
 
-    printf("0x%04x: 0x%04x %-40s", start / 2, opcode, instruction);
+    printf("0x%04x: 0x%04x %-40s\n", start, opcode, instruction);
 
     start = start + count;
   }
